@@ -162,7 +162,7 @@ def render_lua(h, upto):
     steps = h["steps"][:upto] if upto else h["steps"]
     for s in steps:
         op, a, n = s["op"], s["a"], s["n"]
-        c = {"open": "f = io.tmpfile()" if a == "tmp" else 'f = io.open(path, "%s")' % a, "peek": 'io.open(path, "r"):read("*a")',
+        c = {"open": "f = io.tmpfile()" if a == "tmp" else ("io.output(path) f = io.output()" if a == "out" else ("io.input(path) f = io.input()" if a == "in" else 'f = io.open(path, "%s")' % a)), "peek": 'io.open(path, "r"):read("*a")',
              "read": "f:read(%d)" % n, "readline": 'f:read("*l")', "readall": 'f:read("*a")', "readnum": 'f:read("*n")',
              "lines": "it = f:lines() -- called %d times" % n, "write": "f:write(payload(%d, %d))" % (s["tag"], n),
              "seek": 'f:seek("%s", %d)' % (a, n), "seek0": "f:seek()", "seek1": 'f:seek("%s")' % a,
@@ -232,7 +232,7 @@ def rand_ops(rng, n):
         elif r < 0.97:
             ops.append(op("close"))
         else:
-            ops.append(op("open", rng.choice(MODES + ["tmp"])))
+            ops.append(op("open", rng.choice(MODES + ["tmp", "out", "in"])))
     if rng.random() < 0.35:
         # motif: small stream buffer, short read (leaves read-ahead), flush, a write around / beyond the buffer size
         b = rng.choice([1, 2, 16, 100, 4096])
